@@ -235,6 +235,13 @@ def decodeF (cfg : Cfg) : List (Text × Json) → List (Text × Py)
 end
 
 /-! ### which graphs survive -/
+
+/-- A key / attribute name the codec leaves alone: not one of the tags, and not starting with `json://`
+    (jsonpickle escapes such string keys under `keys=True`; observed on the running code: the back references
+    of a dict with an escaped key come out wrong — such keys cannot come from a workbook, Excel forbids `/` in
+    sheet names and defined names, and they are outside the fragment). -/
+def okKey (k : Text) : Bool := !isReserved k && !jsonKeyPrefix.isPrefixOf k
+
 mutual
 /-- `enc cfg g`: every class in `g` can be resolved by the reader, slot-only objects can be rebuilt, no
     attribute or key is one of jsonpickle's tags. -/
@@ -252,7 +259,7 @@ def encL (cfg : Cfg) : List Py → Bool
   | x :: xs => enc cfg x && encL cfg xs
 def encF (cfg : Cfg) : List (Text × Py) → Bool
   | [] => true
-  | (k, v) :: r => !isReserved k && enc cfg v && encF cfg r
+  | (k, v) :: r => okKey k && enc cfg v && encF cfg r
 end
 
 mutual
@@ -562,16 +569,18 @@ def construct (cfg : Cfg) (lower : Text → Text) (parse : Text → Names → Py
 
 /-! ### the rest of the history: evaluate, set_cell_value -/
 
+/-- `setattr` of every `(attribute, value)` of `sets` on the object stored under `addr` -/
+def storeCell (addr : Text) (sets : List (Text × Py)) (p : Text × Py) : Text × Py :=
+  if p.1 = addr then
+    (p.1, match p.2 with
+          | .obj cl fs => .obj cl (sets.foldl (fun acc (q : Text × Py) => setField q.1 q.2 acc) fs)
+          | x => x)
+  else p
+
 /-- `cell.value = v` (and further attributes) on the object stored under `addr` -/
 def storeAt (addr : Text) (sets : List (Text × Py)) (m : PModel) : PModel :=
   match m.cells with
-  | .dict kvs =>
-    { m with cells := .dict (kvs.map fun (k, c) =>
-        if k = addr then
-          (k, match c with
-              | .obj cl fs => .obj cl (sets.foldl (fun acc (f, v) => setField f v acc) fs)
-              | x => x)
-        else (k, c)) }
+  | .dict kvs => { m with cells := .dict (kvs.map (storeCell addr sets)) }
   | _ => m
 
 /-- `Evaluator.evaluate(addr)` on a formula cell: `cell.value = value; cell.need_update = False` -/
@@ -586,5 +595,67 @@ def setCellValue (addr : Text) (v : Py) (fresh : Py) (m : PModel) : PModel :=
     if (lookup addr kvs).isSome then storeAt addr [(fValue, v)] m
     else { m with cells := .dict (kvs ++ [(addr, fresh)]) }
   | _ => m
+
+/-! ### which model states survive -/
+
+/-- the four dicts of a model, as the entries of the persisted dict in canonical order -/
+def rootItems (m : PModel) : List (Text × Py) :=
+  [(kCells, m.cells), (kDefinedNames, m.definedNames), (kFormulae, m.formulae), (kRanges, m.ranges)]
+
+/-- what `persist_to_json_file` hands to the encoder: the model, without the compiled ASTs if the source
+    leaves them out -/
+def stripped (cfg : Cfg) (m : PModel) : PModel := if cfg.persistsAst then m else clearAst m
+
+/-- the object graph of the model is encodable -/
+def Encodable (cfg : Cfg) (m : PModel) : Prop := encF cfg (rootItems m) = true
+/-- … and not nested deeper than the encoder manages -/
+def Shallow (cfg : Cfg) (m : PModel) : Prop := depthF (rootItems m) + 1 ≤ cfg.maxDepth
+
+/-- A model state survives persistence: its object graph (as handed to the encoder) is encodable and not nested
+    deeper than the encoder's recursion allows. -/
+def Persistable (cfg : Cfg) (m : PModel) : Prop :=
+  Encodable cfg (stripped cfg m) ∧ Shallow cfg (stripped cfg m)
+
+/-- every cell that carries a formula object carries a formula text (what `build_code` hands to the parser) -/
+def textedCell (c : Py) : Bool :=
+  match c with
+  | .obj _ fs =>
+    match lookup fFormula fs with
+    | some (.obj _ ffs) => (match lookup fFormula ffs with | some (.str _) => true | _ => false)
+    | _ => true
+  | _ => true
+
+def textedItems : List (Text × Py) → Bool
+  | [] => true
+  | (_, c) :: r => textedCell c && textedItems r
+
+def Texted (m : PModel) : Bool :=
+  match m.cells with
+  | .dict kvs => textedItems kvs
+  | _ => true
+
+/-- classes jsonpickle has a handler for (`f_token.unique_identifier` is annotated with the module `uuid`) -/
+def handled : List Text := ["uuid".toList, "uuid.UUID".toList, "datetime.datetime".toList]
+
+/-- JSON-native values, and `datetime` (jsonpickle's own handler) -/
+def nativeVal : Py → Bool
+  | .none | .bool _ | .int _ | .float _ | .str _ => true
+  | .lib c _ => handled.contains c
+  | _ => false
+
+def nativeItems : List (Text × Py) → Bool
+  | [] => true
+  | (k, v) :: r => okKey k && nativeVal v && nativeItems r
+
+/-- what `Evaluator.evaluate` stores in a cell: a native value, an `ExcelType` instance
+    (Number, Text, Boolean, DateTime, Blank) around a native payload, or an `ExcelError` -/
+def evaluatedVal : Py → Bool
+  | .slots c [p] => Gen.C12.excelTypeClasses.contains c && nativeVal p
+  | .reduce c args st => Gen.C12.errorClasses.contains c && args.all nativeVal && nativeItems st
+  | v => nativeVal v
+
+/-- an instance of one of the four dataclasses whose `__dict__` holds exactly the dataclass fields -/
+def mkInstance (row : Gen.C12.ClassRow) (vals : Text → Py) : Py :=
+  .obj row.qualname (row.fields.map fun f => (f.name, vals f.name))
 
 end XlVerif.Model.C12
